@@ -210,6 +210,13 @@ def placement_suspects():
             out.append(("placement:codegen-error %s in hole %d (assigned)" % (e, i), pre + "r = " + (h % e) + "\nprint r\n"))
         out.append(("placement:codegen-error %s as condition" % e, pre + "if %s {\n  print 1\n}\nwhile %s {\n  break\n}\n" % (e, e)))
         out.append(("placement:codegen-error %s returned" % e, pre + "g = fn() -> bool {\n  return %s\n}\nprint g()\n" % e))
+    # type errors whose DIAGNOSTIC is built from both types (hints that index into the shorter / longer of two shapes)
+    for decl, val in [("[int, str]", '[7, "ada", true]'), ("[int, str, bool]", '[7, "ada"]'), ("[int, str]", '["x", 1]'), ("[int, str]", "[]"),
+                      ("[int, [str, bool]]", '[1, ["a", true, 2]]'), ("[[int, str]...]", '[[1, "a"], [2, "b", 3]]'), ("[int, str]?", '[1, "a", nil]'),
+                      ("map[str, [int, str]]", 'map[str, [int, str, int]] { "k": [1, "a", 2] }'), ("fn([int, str]) -> int", "fn(a: [int, str, bool]) -> int { return 1 }")]:
+        out.append(("placement:shape-mismatch %s <- %s const" % (decl, val[:20]), "const p: %s = %s\nprint p\n" % (decl, val)))
+        out.append(("placement:shape-mismatch %s <- %s argument" % (decl, val[:20]), "f = fn(a: %s) {\n  print a\n}\nf(%s)\n" % (decl, val)))
+        out.append(("placement:shape-mismatch %s <- %s return" % (decl, val[:20]), "f = fn() -> %s {\n  return %s\n}\nprint f()\n" % (decl, val)))
     # import paths without a file name, at the top level and inside every kind of block
     for path in ["..ms", "..", ".", "./", "/", "a/..", "../..ms", "./.ms", ".ms", "a/../..ms"]:
         out.append(("placement:import-path %s top" % path, "import %s\n" % path))
